@@ -181,6 +181,7 @@ func (e *Exclusive) call(c exclusiveConfig) <-chan *ExclusiveOutcome {
 		}
 		item = e.work[c.key]
 		e.mutex.Unlock()
+		verifAt("excl.after.unlocked1", nil, 0)
 
 		// lock item then the root to check if item is still valid
 		verifAt("excl.call.item.lock", e, 0)
@@ -211,10 +212,12 @@ func (e *Exclusive) call(c exclusiveConfig) <-chan *ExclusiveOutcome {
 			if c.start && item.count != 1 {
 				e.mutex.Unlock()
 				item.mutex.Unlock()
+				verifAt("excl.after.unlocked2", nil, 0)
 				return nil
 			}
 		}
 		e.mutex.Unlock()
+		verifAt("excl.after.unlocked3", nil, 0)
 
 		if valid {
 			// keep the item lock to prevent it from being no longer valid
@@ -223,6 +226,7 @@ func (e *Exclusive) call(c exclusiveConfig) <-chan *ExclusiveOutcome {
 		}
 
 		item.mutex.Unlock()
+		verifAt("excl.after.unlocked4", nil, 0)
 	}
 
 	// all cases except "start" (no wait on outcome) return a non-nil channel
@@ -239,6 +243,7 @@ func (e *Exclusive) call(c exclusiveConfig) <-chan *ExclusiveOutcome {
 		for item.running {
 			verifAt("excl.run.wait", e, 0)
 			item.cond.Wait()
+			verifAt("excl.after.woke1", nil, 0)
 		}
 
 		if item.complete {
@@ -251,6 +256,7 @@ func (e *Exclusive) call(c exclusiveConfig) <-chan *ExclusiveOutcome {
 				close(outcome)
 			}
 			item.mutex.Unlock()
+			verifAt("excl.after.unlocked5", nil, 0)
 			return
 		}
 
@@ -265,6 +271,7 @@ func (e *Exclusive) call(c exclusiveConfig) <-chan *ExclusiveOutcome {
 			// adjust the sleep by how long we have already waited
 			if wait := item.wait - time.Since(item.ts); wait > 0 {
 				item.mutex.Unlock()
+				verifAt("excl.after.unlocked6", nil, 0)
 				verifAt("excl.run.tw0", e, 0)
 				time.Sleep(wait)
 				verifAt("excl.run.tw1", e, 0)
@@ -287,6 +294,7 @@ func (e *Exclusive) call(c exclusiveConfig) <-chan *ExclusiveOutcome {
 
 		// release the mutex while we do the work
 		item.mutex.Unlock()
+		verifAt("excl.after.unlocked7", nil, 0)
 
 		// call the work function, guaranteeing resolve, and blocking until work is complete
 		{
@@ -311,6 +319,7 @@ func (e *Exclusive) call(c exclusiveConfig) <-chan *ExclusiveOutcome {
 						item.cond.Broadcast()
 						verifAt("excl.resolve.bcast", e, 0)
 						item.mutex.Unlock()
+						verifAt("excl.after.unlocked8", nil, 0)
 					})
 				}
 			)
@@ -335,6 +344,7 @@ func (e *Exclusive) call(c exclusiveConfig) <-chan *ExclusiveOutcome {
 		nextItem.cond.Broadcast()
 		verifAt("excl.run.next.bcast", e, 0)
 		nextItem.mutex.Unlock()
+		verifAt("excl.after.unlocked9", nil, 0)
 	}()
 
 	return outcome
